@@ -36,7 +36,7 @@ func vSetup(v6 bool) (d *icmpDriver, sink *N.Sink, src *N.Source, local, target 
 	V.Assume(min >= 1)
 	V.Assume(min <= max)
 	V.Assume(max-min <= W-1)
-	sink, src = &N.Sink{}, &N.Source{}
+	sink, src = &N.Sink{Takes: V.ParamInt("writeTakes", 0) == 1}, &N.Source{}
 	d = newICMPDriver(vParams(target, min, max), local, sink, src)
 	d.echoID = V.U16("echoID") // arbitrary allocator state
 	m = V.U8("m")
